@@ -178,6 +178,50 @@ theorem arch_contract (c : Cfg) (hin : inGrid c = true) (hdoc : docValid c = tru
         (hd.ch, a * c.realMaxStride / hd.os, b * c.realMaxStride / hd.os) :=
   run_of_wellFormed c (grid_wellFormed c hin hdoc hsup) a b ha hb fresh
 
+/-! ## convolution geometry -/
+
+/-- **Modelling assumption about torch's `padding="same"`, as a theorem about its arithmetic**: for every
+    kernel size `k ≥ 1` (odd or even) a stride-1 "same" convolution keeps the size.  Hence
+    `kernel_size` (encoder, decoder refine convs, UNet stem kernel) is not a dimension of the
+    bookkeeping and `arch_contract` holds for every `k`; validated against real `nn.Conv2d` modules
+    and against whole models with `kernel_size ∈ {1,…,5}` by the harness. -/
+theorem same_padding_preserves_size (n k : Nat) (hk : 1 ≤ k) : sameConvOut n k = n := by
+  simp only [sameConvOut]; omega
+
+/-- … whereas the explicit symmetric padding `k // 2` keeps the size for odd kernels only and grows
+    the map by one pixel per convolution for even kernels. -/
+theorem explicit_half_padding_grows_even_kernel (n j : Nat) (_hj : 1 ≤ j) :
+    explicitHalfPadOut n (2 * j) = n + 1 ∧ explicitHalfPadOut n (2 * j + 1) = n := by
+  unfold explicitHalfPadOut; omega
+
+/-- ConvNeXt `stem_patch_kernel` / Swin `patch_size`: every kernel `2 < k ≤ stem_patch_stride + 2` gives
+    the certificate of the default kernel 4 (the grid theorem `arch_grid_ok` is stated at 4). -/
+theorem stem_kernel_irrelevant (c : Cfg) (hf : c.fam ≠ .unet) (k : Nat) (hk : 2 < k ∧ k ≤ c.stem + 2)
+    (h4 : 2 ≤ c.stem) : wellFormed { c with stemKernel := k } = wellFormed { c with stemKernel := 4 } :=
+  wellFormed_stemKernel c hf k hk h4
+
+/-- the grid theorem and the contract for every valid stem kernel of the wrappers -/
+theorem arch_contract_stem_kernel (c : Cfg) (hf : c.fam ≠ .unet) (h4 : 2 ≤ c.stem)
+    (hk : 2 < c.stemKernel ∧ c.stemKernel ≤ c.stem + 2)
+    (hin : inGrid { c with stemKernel := 4 } = true) (hdoc : docValid c = true) (hsup : supported c = true)
+    (a b : Nat) (ha : 0 < a) (hb : 0 < b) (fresh : Bool) :
+    ∃ f, run c fresh (a * c.realMaxStride) (b * c.realMaxStride) = .ok f ∧
+      f.outs = c.heads.map fun hd =>
+        (hd.ch, a * c.realMaxStride / hd.os, b * c.realMaxStride / hd.os) := by
+  have hw : wellFormed c = true := by
+    have := wellFormed_stemKernel c hf c.stemKernel hk h4
+    rw [show ({ c with stemKernel := c.stemKernel } : Cfg) = c from rfl] at this
+    rw [this]
+    exact grid_wellFormed { c with stemKernel := 4 } hin hdoc hsup
+  exact run_of_wellFormed c hw a b ha hb fresh
+
+/-- a stem kernel outside that range (here 2 and 7 with stride 2) is rejected loudly in forward -/
+theorem stem_kernel_invalid_rejected :
+    run { exampleWrapCfg with stemKernel := 2 } true 32 32 = .err .runtime ∧
+      run { exampleWrapCfg with stemKernel := 7 } true 32 32 = .err .runtime ∧
+      inGrid exampleWrapCfg = true := by
+  decide +kernel
+
 /-! ## pooling state and call histories -/
 
 /-- `MaxPool2dWithSamePadding`: for an even positive size both padding states give the same
